@@ -27,6 +27,7 @@ from typing import List
 
 from deep import logging
 from deep.api.tracepoint import VariableId, Variable
+from deep.utils import wire_safe
 from .bfs import Node, ParentNode, NodeValue
 
 NO_CHILD_TYPES = [
@@ -389,20 +390,6 @@ def safe_str(value) -> str:
         return wire_safe(str(value))
     except Exception:
         return f'{type(value)}@{id(value)}'
-
-
-def wire_safe(text: str) -> str:
-    """
-    Make a string safe to send: text that cannot be encoded as UTF-8 (lone surrogates) is escaped.
-
-    :param text: the text to check
-    :return: the text, with any un-encodable characters replaced by their backslash escape
-    """
-    try:
-        text.encode('utf-8')
-        return text
-    except UnicodeEncodeError:
-        return text.encode('utf-8', 'backslashreplace').decode('utf-8')
 
 
 def process_list_breadth_first(var_collector: Collector, parent_node: ParentNode, value) -> List[Node]:
